@@ -114,9 +114,14 @@ def run(repo: Repo, chk: Check, thorough: bool = False) -> None:
         ok = len(a) == 2 and norm(a[1]) == ps[3] and (norm(a[0]) in curv or norm(a[0]) == 'self.builder.current')
         chk.ob('R07.2', f'{MV}._handleReExport :: moved to the current module under the exported name', ok, norm(c), repo.loc(hr.mod, c))
     ge = repo.func(f'{MV}._getCurrentModuleExports')
-    ok = any(isinstance(n, ast.If) and isinstance(n.test, ast.Call) and call_name(n.test) == 'isinstance' and
-             norm(n.test.args[1]) == 'model.Module' and n.orelse and
-             any(isinstance(s, ast.Assign) and isinstance(s.value, ast.List) and not s.value.elts for s in n.orelse) for n in ge.walk())
+    from ..cfg import if_branches
+    ok = False
+    for n in ge.walk():
+        if isinstance(n, ast.If):
+            t, yes, no = if_branches(n)
+            if isinstance(t, ast.Call) and call_name(t) == 'isinstance' and norm(t.args[1]) == 'model.Module' and \
+                    any(isinstance(s, ast.Assign) and isinstance(s.value, ast.List) and not s.value.elts for s in no):
+                ok = True
     chk.ob('R07.2', f'{MV}._getCurrentModuleExports :: nothing is exported from class/function scopes', ok,
            'exports = [] unless the current scope is a module' if ok else 'imports inside classes could trigger a move', ge.loc)
     users = [f.qn for f in repo.funcs.values() for c in calls_in(f) if call_name(c) == '_handleReExport']
